@@ -15,6 +15,7 @@ import (
 	"io"
 	"math/rand"
 	"net"
+	"runtime"
 	"sort"
 	"strings"
 	"sync"
@@ -144,9 +145,17 @@ type c08Case struct {
 	Events    []c08Ev  `json:"events"`
 	Class     string   `json:"class"`
 	Skipped   bool     `json:"skipped,omitempty"` // not run (an earlier genRequestID case hung)
+	Push       bool   `json:"push,omitempty"`        // trace: proxy 0 has a push callback; id-0 packets on its connections must reach it
+	Procs      int    `json:"procs,omitempty"`       // trace: GOMAXPROCS during the scenario (0 = unchanged)
+	Spin       int64  `json:"spin,omitempty"`        // wrap: allocations between call A and call B
+	WrapServed []bool `json:"wrap_served,omitempty"` // wrap, observed: did A / B come back with a reply
 }
 
 const c08Poison = 0xFFFFFFFF
+
+// c08Patience is the deadline of a caller that is going to be answered: far beyond anything a loaded machine needs (the
+// scripted server answers within milliseconds of having collected the round's requests).
+const c08Patience = 20 * time.Second
 
 func c08Payload(k uint32, variant uint32) []byte {
 	b := make([]byte, 8)
@@ -260,6 +269,9 @@ func (l *c08Log) add(e c08Ev) {
 }
 
 func c08RunTrace(c *c08Case) []Failure {
+	if c.Procs > 0 {
+		defer runtime.GOMAXPROCS(runtime.GOMAXPROCS(c.Procs))
+	}
 	ln, err := net.Listen("tcp", "127.0.0.1:0")
 	if err != nil {
 		fatal("listen: %v", err)
@@ -282,6 +294,15 @@ func c08RunTrace(c *c08Case) []Failure {
 			}
 		})
 		defer c08SetHook(obj, nil)
+	}
+	if c.Push {
+		sps[0].SetPushCallback(func(b []byte) {
+			e := c08Ev{Kind: "push"}
+			if len(b) == 8 {
+				e.Pay = binary.BigEndian.Uint64(b)
+			}
+			log.add(e)
+		})
 	}
 	pendingIDs := func() []int32 {
 		var ids []int32
@@ -380,6 +401,9 @@ func c08RunTrace(c *c08Case) []Failure {
 	var lateWg sync.WaitGroup
 	var doneList []int // callers known to have returned
 	patient := func(k int) bool { return c.Acts[k] != "none" && c.Acts[k] != "late" }
+	replied := map[int]time.Time{} // callers the server has written the genuine reply to, and when
+	started := map[int]time.Time{}
+	wantPush := map[uint64]int{} // payloads of id-0 packets written to connections of the proxy that has a push callback
 
 	for round := 0; round < rounds; round++ {
 		lo, hi := round*c.N, (round+1)*c.N
@@ -390,7 +414,7 @@ func c08RunTrace(c *c08Case) []Failure {
 			wg.Add(1)
 			go func(k int) {
 				defer wg.Done()
-				to := 8 * time.Second
+				to := c08Patience
 				if !patient(k) {
 					to = time.Duration(c.TimeoutMs) * time.Millisecond
 				}
@@ -413,6 +437,7 @@ func c08RunTrace(c *c08Case) []Failure {
 				close(ended[k])
 			}(k)
 		}
+		started[round] = time.Now()
 		close(startCh)
 
 		// server script: collect the round's requests, then handle them in the scripted order
@@ -463,14 +488,19 @@ func c08RunTrace(c *c08Case) []Failure {
 			if !ok {
 				continue
 			}
-			genuine := func() { send(s.conn, s.id, c08Payload(uint32(k), 0), false) }
+			genuine := func() {
+				replied[k] = time.Now()
+				send(s.conn, s.id, c08Payload(uint32(k), 0), false)
+			}
 			switch c.Acts[k] {
 			case "reply":
 				genuine()
-				select { // remember completed callers for the "already completed" forgery
-				case <-ended[k]:
-					doneList = append(doneList, k)
-				case <-time.After(20 * time.Millisecond):
+				if len(doneList) == 0 { // remember a completed caller for the "already completed" forgery
+					select {
+					case <-ended[k]:
+						doneList = append(doneList, k)
+					case <-time.After(20 * time.Millisecond):
+					}
 				}
 			case "dup":
 				genuine()
@@ -488,6 +518,9 @@ func c08RunTrace(c *c08Case) []Failure {
 					send(s.conn, s.id, c08Payload(uint32(k), 7), false)
 				}(k, s)
 			case "f0": // id 0 (push) carrying a poisoned payload, then the genuine reply
+				if c.Push && k%nprox == 0 {
+					wantPush[binary.BigEndian.Uint64(c08Payload(c08Poison, uint32(k)))]++
+				}
 				send(s.conn, 0, c08Payload(c08Poison, uint32(k)), false)
 				genuine()
 			case "funk": // ids nobody registered
@@ -526,9 +559,7 @@ func c08RunTrace(c *c08Case) []Failure {
 								j = kk
 							case <-time.After(2 * time.Second):
 							}
-							if j >= 0 {
-								break
-							}
+							break // one wait at most
 						}
 					}
 				}
@@ -547,6 +578,26 @@ func c08RunTrace(c *c08Case) []Failure {
 	}
 	lateWg.Wait()
 	time.Sleep(30 * time.Millisecond) // let the receivers of the late packets run
+	if c.Push {
+		nwant := 0
+		for _, n := range wantPush {
+			nwant += n
+		}
+		for i := 0; i < 100; i++ { // push callbacks run in their receiver goroutines: up to 2 s
+			log.mu.Lock()
+			got := 0
+			for _, e := range log.ev {
+				if e.Kind == "push" {
+					got++
+				}
+			}
+			log.mu.Unlock()
+			if got >= nwant {
+				break
+			}
+			time.Sleep(20 * time.Millisecond)
+		}
+	}
 	c.Pending = pendingIDs()
 	cmu.Lock()
 	c.NConn = len(conns)
@@ -563,6 +614,26 @@ func c08RunTrace(c *c08Case) []Failure {
 	log.mu.Unlock()
 
 	// ---- L3 monitors
+	if c.Push {
+		gotPush := map[uint64]int{}
+		for _, e := range c.Events {
+			if e.Kind == "push" {
+				gotPush[e.Pay]++
+			}
+		}
+		for pay, n := range wantPush {
+			if gotPush[pay] != n {
+				fs = append(fs, Failure{Sig: "push/id-0-packet-not-handed-to-push-callback", Desc: fmt.Sprintf("%d packet(s) with request id 0 and payload %016x were written to a connection of the proxy with a push callback; the callback saw %d", n, pay, gotPush[pay])})
+				break
+			}
+		}
+		for pay, n := range gotPush {
+			if wantPush[pay] == 0 {
+				fs = append(fs, Failure{Sig: "push/callback-got-a-packet-that-was-not-a-push", Desc: fmt.Sprintf("the push callback was called %d time(s) with payload %016x, which was never sent under request id 0 to that proxy", n, pay)})
+				break
+			}
+		}
+	}
 	active := map[int32]int{}
 	idOf := map[int]int32{}
 	for _, e := range c.Events {
@@ -588,9 +659,8 @@ func c08RunTrace(c *c08Case) []Failure {
 		if o.got && !patient(k) {
 			fs = append(fs, Failure{Sig: "call/reply-without-source", Desc: fmt.Sprintf("caller %d (act %s) received a reply although none had been sent before it returned", k, c.Acts[k])})
 		}
-		_, seenReq := reqs[k]
-		if !o.got && seenReq && patient(k) {
-			fs = append(fs, Failure{Sig: "call/matching-reply-not-delivered", Desc: fmt.Sprintf("caller %d (act %s, id %d): the server sent the matching reply seconds before the 8 s deadline but the call ended without it", k, c.Acts[k], reqs[k].id)})
+		if at, ok := replied[k]; ok && !o.got && patient(k) && at.Sub(started[k/c.N]) < c08Patience/2 {
+			fs = append(fs, Failure{Sig: "call/matching-reply-not-delivered", Desc: fmt.Sprintf("caller %d (act %s, id %d): the server wrote the matching reply %v after the round started, the caller's deadline was %v, but the call ended without it", k, c.Acts[k], reqs[k].id, at.Sub(started[k/c.N]).Round(time.Millisecond), c08Patience)})
 		}
 	}
 	if len(c.Pending) != 0 {
@@ -600,6 +670,145 @@ func c08RunTrace(c *c08Case) []Failure {
 		if q := tars.VerifC08QueueLen(sp); q != 0 {
 			fs = append(fs, Failure{Sig: "call/queueLen-not-restored", Desc: fmt.Sprintf("after all %d callers returned queueLen = %d", total, q)})
 		}
+	}
+	return fs
+}
+
+// c08RunWrap replays the wrap-around witness (Coq: C08SysProofs.outstanding_share_id_after_wrap) on the code: with the
+// counter at 1, call A is left outstanding, 2^31-3 further ids are allocated, call B is made. The 32-bit counter hands B
+// the id A still holds. Observations go to the model's prediction (KWrap); the monitors are those of every scenario that
+// do not presuppose distinct ids: B gets its own payload, A never gets B's.
+func c08RunWrap(c *c08Case) []Failure {
+	ln, err := net.Listen("tcp", "127.0.0.1:0")
+	if err != nil {
+		fatal("listen: %v", err)
+	}
+	defer ln.Close()
+	obj := c08NextObj("C08Wrap")
+	sp := c08Proxy(obj, ln.Addr().(*net.TCPAddr).Port)
+	type seen struct {
+		k    int
+		id   int32
+		conn net.Conn
+	}
+	reqCh := make(chan seen, 8)
+	var conns []net.Conn
+	var cmu sync.Mutex
+	go func() {
+		for {
+			conn, err := ln.Accept()
+			if err != nil {
+				return
+			}
+			cmu.Lock()
+			conns = append(conns, conn)
+			cmu.Unlock()
+			go func(conn net.Conn) {
+				for {
+					req, err := c08ReadRequest(conn)
+					if err != nil {
+						return
+					}
+					if b := tools.Int8ToByte(req.SBuffer); len(b) == 8 {
+						reqCh <- seen{int(binary.BigEndian.Uint32(b)), req.IRequestId, conn}
+					}
+				}
+			}(conn)
+		}
+	}()
+	defer func() {
+		cmu.Lock()
+		for _, cn := range conns {
+			cn.Close()
+		}
+		cmu.Unlock()
+	}()
+	type outc struct {
+		got bool
+		pay uint64
+	}
+	call := func(ctx context.Context, k int, out *outc, done chan struct{}) {
+		var resp requestf.ResponsePacket
+		if err := sp.TarsInvoke(ctx, 0, "echo", c08Payload(uint32(k), 0), nil, nil, &resp); err == nil {
+			if b := tools.Int8ToByte(resp.SBuffer); len(b) == 8 {
+				*out = outc{true, binary.BigEndian.Uint64(b)}
+			} else {
+				*out = outc{true, uint64(c08Poison)<<32 | 0xBAD}
+			}
+		}
+		close(done)
+	}
+	wait := func(k int) (seen, bool) {
+		select {
+		case s := <-reqCh:
+			return s, s.k == k
+		case <-time.After(10 * time.Second):
+			return seen{}, false
+		}
+	}
+	c.IDs = []int32{0, 0, 0}
+	tars.VerifC08SetMsgID(c.Start)
+	var outA, outB outc
+	doneA, doneB := make(chan struct{}), make(chan struct{})
+	ctxA, cancelA := context.WithTimeout(context.Background(), 30*time.Minute)
+	defer cancelA()
+	go call(ctxA, 0, &outA, doneA)
+	sA, ok := wait(0)
+	if !ok {
+		return []Failure{{Sig: "wrap/request-not-seen", Desc: "the scripted server did not receive call A's request within 10 s"}}
+	}
+	c.IDs[0] = sA.id
+	// 2^31-3 further allocations
+	spin := make(chan int32, 1)
+	go func() {
+		var last int32
+		for i := int64(0); i < c.Spin; i++ {
+			last = tars.VerifC08GenRequestID(sp)
+		}
+		spin <- last
+	}()
+	select {
+	case c.IDs[1] = <-spin:
+	case <-time.After(20 * time.Minute):
+		c08GenStuck = true
+		return []Failure{{Sig: "genRequestID/does-not-return", Desc: fmt.Sprintf("%d consecutive genRequestID calls did not finish within 20 minutes", c.Spin)}}
+	}
+	ctxB, cancelB := context.WithTimeout(context.Background(), 8*time.Second)
+	defer cancelB()
+	go call(ctxB, 1, &outB, doneB)
+	sB, ok := wait(1)
+	if !ok {
+		return []Failure{{Sig: "wrap/request-not-seen", Desc: "the scripted server did not receive call B's request within 10 s"}}
+	}
+	c.IDs[2] = sB.id
+	write := func(conn net.Conn, id int32, k uint32) {
+		conn.SetWriteDeadline(time.Now().Add(5 * time.Second))
+		conn.Write(c08EncodeResponse(id, basef.TARSNORMAL, c08Payload(k, 0)))
+	}
+	write(sB.conn, sB.id, 1)
+	select {
+	case <-doneB:
+	case <-time.After(9 * time.Second):
+	}
+	write(sA.conn, sA.id, 0) // the reply to A: A's entry is gone if B shared its id
+	select {
+	case <-doneA:
+	case <-time.After(500 * time.Millisecond):
+		cancelA()
+		<-doneA
+	}
+	<-doneB
+	c.Pending = tars.VerifC08PendingIDs(sp)
+	c.WrapServed = []bool{outA.got, outB.got}
+	var fs []Failure
+	if outB.got && uint32(outB.pay>>32) != 1 {
+		fs = append(fs, Failure{Sig: "call/foreign-reply-delivered", Desc: fmt.Sprintf("wrap scenario: caller B received payload %016x, which is not its own", outB.pay)})
+	}
+	if outA.got && uint32(outA.pay>>32) != 0 {
+		fs = append(fs, Failure{Sig: "call/foreign-reply-delivered", Desc: fmt.Sprintf("wrap scenario: caller A received payload %016x, which is not its own", outA.pay)})
+	}
+	if len(c.Pending) != 0 {
+		fs = append(fs, Failure{Sig: "call/pending-entry-left", Desc: fmt.Sprintf("wrap scenario: after both callers returned the pending-reply table still holds ids %v", c.Pending)})
 	}
 	return fs
 }
@@ -718,6 +927,11 @@ func c08Coq(c *c08Case) string {
 	switch c.Kind {
 	case "mtbig":
 		return ""
+	case "wrap":
+		if len(c.IDs) != 3 || len(c.WrapServed) != 2 {
+			return ""
+		}
+		return fmt.Sprintf("KWrap ((%d)%%Z, (%d)%%Z, (%d)%%Z, %s, %s)", c.IDs[0], c.IDs[1], c.IDs[2], coqBool(c.WrapServed[1]), coqBool(c.WrapServed[0]))
 	case "seq":
 		return fmt.Sprintf("KSeq ((%d)%%Z, %s, (%d)%%Z)", c.Start, c08Zs(c.IDs), c.Final)
 	case "mt":
@@ -776,11 +990,16 @@ func c08Gen(tier string, rng *rand.Rand) []c08Case {
 		}
 		cs = append(cs, c08Case{Kind: "mtbig", Start: int32(s), Calls: threads * per, Threads: threads, Class: fmt.Sprintf("mtbig/%s/t%d", c08Zone(s, maxi), threads)})
 	}
+	// the wrap-around witness on the code (2^31 allocations: some tens of seconds). Before the scripted-server scenarios:
+	// a proxy with a push callback starts a keep-alive ticker that may take an id minutes later.
+	if tier == "thorough" {
+		cs = append(cs, c08Case{Kind: "wrap", Start: 1, Spin: int64(1)<<31 - 3, Class: "wrap/full-cycle"})
+	}
 	// scripted-server scenarios
 	sizes := []int{1, 1, 1, 4, 4, 4, 4, 4, 32, 32, 32, 256, 256}
 	if tier == "thorough" {
-		for i := 0; i < 5; i++ {
-			sizes = append(sizes, 1, 4, 4, 32, 32, 256, 8, 64, 128)
+		for i := 0; i < 12; i++ {
+			sizes = append(sizes, 1, 4, 4, 32, 32, 256, 8, 64, 128, 2, 16)
 		}
 	}
 	kinds := []string{"reply", "dup", "none", "late", "f0", "funk", "oneway", "fdone", "fcross"}
@@ -798,6 +1017,12 @@ func c08Gen(tier string, rng *rand.Rand) []c08Case {
 		if n == 1 {
 			c.Proxies = 1
 		}
+		c.Push = si%3 == 1
+		if tier == "thorough" {
+			c.Procs = []int{0, 1, 2, 4, 0, 16}[si%6]
+		} else if si%6 == 5 {
+			c.Procs = 1 + rng.Intn(2)
+		}
 		used := map[string]bool{}
 		for k := 0; k < n*c.Rounds; k++ {
 			a := kinds[rng.Intn(len(kinds))]
@@ -812,6 +1037,10 @@ func c08Gen(tier string, rng *rand.Rand) []c08Case {
 			}
 			c.Acts = append(c.Acts, a)
 			used[a] = true
+		}
+		if c.Push {
+			c.Acts[0] = "f0"
+			used["f0"] = true
 		}
 		for r := 0; r < c.Rounds; r++ {
 			for _, k := range rng.Perm(n) {
@@ -831,7 +1060,7 @@ func c08Gen(tier string, rng *rand.Rand) []c08Case {
 			ks = append(ks, a)
 		}
 		sort.Strings(ks)
-		c.Class = fmt.Sprintf("trace/n%d/r%d/p%d/ids%d/%s", n, c.Rounds, c.Proxies, si%4, strings.Join(ks, "+"))
+		c.Class = fmt.Sprintf("trace/n%d/r%d/p%d/g%d/push%v/ids%d/%s", n, c.Rounds, c.Proxies, c.Procs, c.Push, si%4, strings.Join(ks, "+"))
 		cs = append(cs, c)
 	}
 	return cs
@@ -856,8 +1085,8 @@ func init() {
 		runProp(Prop[c08Case]{
 			ID: "C08", Require: "From TarsV Require Import Base.Hex Rpc.ReqId Conc.Pending Conc.C08Corr.", CaseType: "c08_case",
 			Mismatch: "failing_from c08_check",
-			Corr:     "C08Corr.c08_check (gen_seq = real genRequestID from a set counter; concurrent batches within the theorems' conclusions; accepts = the recorded trace is a good run of the pending-table machine with the observed outcomes)",
-			Rule:     "genRequestID: counter set to 0/maxInt32/minInt32 +-4, 2^30, random, then 1-7 calls single-threaded (exact) and 2-32 threads x 4-33 calls straddling 0, maxInt32, minInt32; scripted raw TCP server with N in {1,4,32,256} concurrent callers on one proxy (thorough: also 8,64,128), per caller one of reply/duplicate replies/no reply/late reply/forged id 0/forged unknown ids/one-way typed packet/forged id of a completed call, server handling order a random permutation, request ids positioned to cross 0, the wrap threshold or be negative; class = (kind, counter zone, threads | N, id zone, set of acts)",
+			Corr:     "C08Corr.c08_check (gen_seq = real genRequestID from a set counter; concurrent batches within the theorems' conclusions; maccepts = the recorded trace, per connection, is a good run of the product of pending-table machines with the observed outcomes, table snapshots and empty tables at the end; wrap witness = the theorem's prediction)",
+			Rule:     "genRequestID: counter set to 0/maxInt32/minInt32 +-4, 2^30, random, then 1-7 calls single-threaded (exact vs gen_seq); 2-32 threads x 4-33 calls straddling 0, maxInt32, minInt32 (non-zero, distinct, reachable window, in Coq); 4-32 threads x 20000-40000 calls (monitor: non-zero, distinct, no lost increment). Scripted raw TCP server: N in {1,4,32,256} (thorough: also 2,8,16,64,128) concurrent callers spread over 1-2 ServantProxy objects (own adapter and connection each), 1-3 rounds on the same connections, per caller one of reply / three replies / no reply / reply after the caller left / forged id 0 / forged unknown ids / one-way typed packet with the right id / id of a completed call / right id on another connection; server handling order a random permutation per round; request ids positioned to cross 0, the wrap threshold, or be negative; GOMAXPROCS 1,2,4,16 in thorough; table snapshot while the round is outstanding. Thorough: full-cycle wrap witness (2^31 allocations). class = (kind, counter zone, threads | N, rounds, proxies, GOMAXPROCS, id zone, set of acts)",
 			Shard:    8,
 			Workers:  1,
 			Gen:      c08Gen,
@@ -870,7 +1099,9 @@ func init() {
 						cs[i].Skipped = true
 						continue
 					}
-					if cs[i].Kind == "trace" {
+					if cs[i].Kind == "wrap" {
+						fails[i] = c08RunWrap(&cs[i])
+					} else if cs[i].Kind == "trace" {
 						fails[i] = c08RunTrace(&cs[i])
 					} else {
 						fails[i] = c08RunGen(&cs[i])
